@@ -277,6 +277,7 @@ def correspondence(ctx):
 
     _corr_newick(ctx, out, rng, small)
     _corr_treedist(ctx, out, rng, small)
+    _corr_newick_chars(ctx, out, rng, small)
     return out
 
 
@@ -389,6 +390,97 @@ def _corr_newick(ctx, out, rng, small):
         else:
             bump(out, "newick", "malformed-error" if isinstance(rp, dict) else "malformed-accepted")
             out["nontrivial"].add("nw:" + text)
+
+
+LEX_PATTERN = r"""([\t ]+|\n|''|""|[]['"(),:;\[\]])"""
+
+
+def _real_char_tokens(text):
+    from cogent3.parse.newick import _Tokeniser
+
+    tk = _Tokeniser(text, underscore_unmunge=True)
+    res = []
+    try:
+        for tok in tk.tokens():
+            if tok is None:
+                break
+            res.append([tok] if tk.token is None else tok)
+    except Exception as e:  # noqa: BLE001
+        return {"err": "ValueError"}
+    return res
+
+
+def _corr_newick_chars(ctx, out, rng, small):
+    """character-level tie: regular-expression split, token loop, and the writer's escaping"""
+    import re
+
+    alpha = "ab_ c'\"()[],:;\t\n'\"  x9."
+    texts = []
+    for _ in range(ctx.budget(3000, 40000)):
+        n = rng.randint(0, 14)
+        texts.append("".join(rng.choice(alpha) for _ in range(n)))
+    trees = [t for t in small[:: max(1, len(small) // 40)]]
+    for _ in range(ctx.budget(300, 5000)):
+        t, _m = _gen_tree(rng, odd=rng.random() < 0.7)
+        trees.append(t)
+    reps = ctx.driver.batch([("printstr", dict(tree=U.frac_json(t))) for t in trees])
+    for t, rep in zip(trees, reps):
+        out["evaluations"] += 1
+        real = U.build_real(t).get_newick(with_distances=False)
+        if real != rep:
+            add_failure(out, "corr", "get_newick string differs from model printStr", dict(tree=U.frac_json(t)), rep, real, confirmed=False)
+        else:
+            bump(out, "newick_chars", "printstr-ok")
+            texts.append(real)
+            texts.append(U.build_real(t).get_newick(with_distances=True))
+    lex = ctx.driver.batch([("lex", dict(text=x)) for x in texts])
+    tok = ctx.driver.batch([("tokenise", dict(text=x)) for x in texts])
+    for x, l, tk in zip(texts, lex, tok):
+        out["evaluations"] += 1
+        want = [p for p in re.split(LEX_PATTERN, x) if p != ""]
+        if want != l:
+            add_failure(out, "corr", "model lex differs from re.split", dict(text=x), l, want, confirmed=False)
+            continue
+        real = _real_char_tokens(x)
+        if real != tk:
+            add_failure(out, "corr", "model tokenise differs from _Tokeniser.tokens()", dict(text=x), tk, real, confirmed=False)
+            continue
+        bump(out, "newick_chars", "err" if isinstance(real, dict) else "ok")
+        out["nontrivial"].add("ch:" + x)
+    # the whole character-level parser (tokenise, float() of the token after ':', state machine)
+    reqs = []
+    for x in texts:
+        nums = {}
+        real = _real_char_tokens(x)
+        if not isinstance(real, dict):
+            for tk_ in real:
+                if isinstance(tk_, list):
+                    try:
+                        nums[tk_[0]] = U.frac_json(["", Fraction(float(tk_[0])), []])[1]
+                    except (ValueError, OverflowError):
+                        pass
+        reqs.append(("parsestr", dict(text=x, nums=[[k, v] for k, v in nums.items()])))
+    for x, rep in zip(texts, ctx.driver.batch(reqs)):
+        out["evaluations"] += 1
+        if "(" not in x and ";" not in x and x.strip():
+            want = {"err": "ValueError"}  # parse_string's "Not a Newick tree" guard (before tokenising)
+            if rep != want:
+                bump(out, "newick_chars", "parsestr-guard-skipped")
+            continue
+        rt = _real_char_tokens(x)
+        if not isinstance(rt, dict) and [""] in rt:
+            # an empty quoted label is a *loaded* name that TreeBuilder replaces by edge.N (outside the
+            # stated domain: names are non-empty)
+            bump(out, "newick_chars", "parsestr-empty-label-skipped")
+            continue
+        try:
+            want = U.frac_json(_real_parse(x))
+        except Exception:  # noqa: BLE001
+            want = {"err": "ValueError"}
+        if want != rep:
+            add_failure(out, "corr", "model parseString differs from parse_string", dict(text=x), rep, want, confirmed=False)
+        else:
+            bump(out, "newick_chars", "parsestr-" + ("err" if isinstance(want, dict) else "ok"))
 
 
 def _strip_len(t):
